@@ -84,7 +84,7 @@ def candidates():
             nxt = lines[i + 1].strip() if i + 1 < len(lines) else ""
             if s.startswith("#[cfg(test)]") and nxt.startswith("mod "):
                 in_test = True        # test modules are at the end of each file
-            if s.startswith("#[cfg(mini_moka_verif)]") and (nxt.startswith("impl") or nxt.startswith("mod ")):
+            if (s.startswith("#[cfg(mini_moka_verif") or s.startswith("#[cfg(all(mini_moka_verif")) and (nxt.startswith("impl") or nxt.startswith("mod ")):
                 in_hook = True
             if in_test or in_hook or s.startswith("//") or s.startswith("#[") or not s:
                 continue
